@@ -137,6 +137,13 @@ using sender = typename _sender<remove_cvref_t<Source>>::type;
 
 template <typename Source>
 class _sender<Source>::type {
+  template <typename... Values>
+  struct is_done_tuple : std::false_type {};
+
+  template <typename First, typename... Rest>
+  struct is_done_tuple<First, Rest...>
+    : std::is_base_of<tag_t<set_done>, std::decay_t<First>> {};
+
   template <template <typename...> class Variant>
   struct append_error_types {
   private:
@@ -173,7 +180,9 @@ public:
       variant<append_error_types<Variant>::template apply>::template apply,
       tuple<tag_t<set_error>, single_type_t>::template apply>;
 
-  static constexpr bool sends_done = sender_traits<Source>::sends_done;
+  // done can also arrive as a materialized set_value(set_done)
+  static constexpr bool sends_done = sender_traits<Source>::sends_done ||
+      sender_value_types_t<Source, std::disjunction, is_done_tuple>::value;
 
   static constexpr blocking_kind blocking = sender_traits<Source>::blocking;
 
